@@ -215,7 +215,13 @@ fn cli_script(case: &Case, gap_ms: u64) -> Vec<String> {
     }
     match case.end {
         End::Quiet => v.push("hang".into()),
-        End::Eof | End::EofHold => v.push("eof".into()),
+        End::Eof => v.push("eof".into()),
+        // the peer closes its output and stays alive, its stderr and stdin still open (a child that
+        // leaves a descendant behind, or that only shuts its stdout): end of stream all the same
+        End::EofHold => {
+            v.push("closeout".into());
+            v.push("hang".into());
+        }
         End::Abort => v.push("abort".into()),
     }
     v
@@ -280,6 +286,8 @@ fn bodies() -> Vec<Vec<u8>> {
         b"<c/>]]>",
         b"]]",
         b"y]]>]]]",
+        // multi-byte characters (2, 3 and 4 bytes): a packet / record / read boundary may fall inside one
+        "<n>Z\u{fc}rich \u{20ac} \u{1f600}</n>".as_bytes(),
     ];
     v.into_iter()
         .map(|b| b.to_vec())
@@ -374,6 +382,17 @@ pub fn gen_cases(transport: &str, opts: &Opts, rng: &mut Rng) -> Vec<Case> {
                 end: End::Quiet,
             });
         }
+        // (b') a body with bytes ≥ 0x80: EVERY cut position (the framing layer is byte-oriented; a
+        //      boundary inside a multi-byte character must make no difference)
+        if s.iter().any(|b| *b >= 0x80) && s.len() <= 200 {
+            for c in 1..s.len() {
+                cases.push(Case {
+                    transport: transport.into(),
+                    chunks: cut(&s, &[c]),
+                    end: End::Quiet,
+                });
+            }
+        }
         // (d) byte-by-byte for short streams
         if s.len() <= 24 {
             cases.push(Case {
@@ -393,7 +412,7 @@ pub fn gen_cases(transport: &str, opts: &Opts, rng: &mut Rng) -> Vec<Case> {
         }
         if si < 6 || thorough {
             for &cp in &close_points {
-                let ends: Vec<End> = if transport == "ssh" {
+                let ends: Vec<End> = if transport == "ssh" || transport == "cli" {
                     vec![End::Eof, End::Abort, End::EofHold]
                 } else {
                     vec![End::Eof, End::Abort]
